@@ -75,7 +75,7 @@ pub fn step(ds: &DualState, st: &mut FxState, t: &[&str]) -> Option<String> {
                 Err(_) => "panic".to_string(),
             }
         }
-        ["fxrate", id, l, r] => {
+        ["fxrate", id, l, r] | ["fxrateq", id, l, r] => {
             let (f, _) = st.fxs.get(&id.parse().ok()?)?;
             let (l, r) = (Ccy::try_new(l).ok()?, Ccy::try_new(r).ok()?);
             guarded(|| match f.rate(&l, &r) {
@@ -215,6 +215,13 @@ fn emit_market<W: Write>(out: &mut W, r: &mut Rng, id: usize, m: &Market, base: 
 
 fn emit_all_rates<W: Write>(out: &mut W, id: usize, m: &Market) {
     writeln!(out, "fxdump {}", id).unwrap();
+    // quoted pairs and the diagonal: returned exactly (bit for bit)
+    for (a, b, _) in &m.quotes {
+        writeln!(out, "fxrateq {} {} {}", id, m.ccys[*a], m.ccys[*b]).unwrap();
+    }
+    for a in &m.ccys {
+        writeln!(out, "fxrateq {} {} {}", id, a, a).unwrap();
+    }
     for a in &m.ccys {
         for b in &m.ccys {
             writeln!(out, "fxrate {} {} {}", id, a, b).unwrap();
